@@ -28,8 +28,45 @@ struct SegClass {
         std::string sig = gen_keys_into<K>(p, n, std::max<size_t>(eps, 1), chunks_for(e, n), cfg, work);
         p.set("motifs", sig + "eps" + std::to_string(eps));
         p.set("sched2", large && cfg.chance(300) ? (env.next() >> 1) | 1 : 0);
+        if (g.prop == "C20") { // the invalid argument is the injected fault: its position inside the segment is drawn here
+            p.set("bad_after", cfg.range(1, std::max<size_t>(1, std::min<size_t>(n, 40))));
+            p.set("bad_kind", cfg.coin() ? "equal" : "smaller");
+        }
         (void) st;
         return p;
+    }
+
+    /// C20 for the builder: a key that does not exceed its predecessor inside a segment -> std::logic_error; a negative
+    /// epsilon (signed rank type) -> std::invalid_argument.
+    static Outcome run_rejections(const PlanText &p, Stats &st) {
+        Outcome out;
+        Trace tr;
+        std::vector<K> data = keys_from_plan<K>(p);
+        // strictly increasing prefix of the distinct keys
+        data.erase(std::unique(data.begin(), data.end()), data.end());
+        size_t eps = (size_t) p.get_u("rt_eps", 1);
+        size_t after = std::min<size_t>((size_t) p.get_u("bad_after", 1), data.size());
+        if (after == 0) { out.trace_hash = tr.h; return out; }
+        pgm::internal::OptimalPiecewiseLinearModel<K, size_t> m(eps);
+        size_t in_segment = 0;
+        for (size_t i = 0; i < after; ++i) { if (!m.add_point(data[i], i)) { m.add_point(data[i], i); in_segment = 0; } ++in_segment; }
+        K bad = p.get("bad_kind") == "equal" ? data[after - 1] : (has_prev(data[after - 1]) ? prev_of(data[after - 1]) : data[after - 1]);
+        std::string got = "no exception";
+        st.inc("fault.invalid_op");
+        try { m.add_point(bad, after); }
+        catch (const std::logic_error &) { got = "logic_error"; }
+        catch (const std::exception &e) { got = std::string("other exception: ") + e.what(); }
+        tr.add_str(got);
+        if (got != "logic_error") out.fail("non-increasing-key-not-rejected", "add_point(" + key_text(bad) + ") after " + std::to_string(in_segment) + " points of a segment ending at " + key_text(data[after - 1]) + ": " + got + " instead of std::logic_error");
+        std::string got2 = "no exception";
+        try { pgm::internal::OptimalPiecewiseLinearModel<K, int64_t> neg(-1 - (int64_t) (eps % 7)); (void) neg; }
+        catch (const std::invalid_argument &) { got2 = "invalid_argument"; }
+        catch (const std::exception &e) { got2 = std::string("other exception: ") + e.what(); }
+        st.inc("fault.invalid_op");
+        if (out.ok && got2 != "invalid_argument") out.fail("negative-epsilon-not-rejected", "OptimalPiecewiseLinearModel<K, int64_t>(negative epsilon): " + got2);
+        st.mark("nontrivial", sim::mix(in_segment, sim::hash_str(p.get("bad_kind").c_str()) ^ eps));
+        out.trace_hash = tr.h;
+        return out;
     }
 
     struct Built {
@@ -64,6 +101,7 @@ struct SegClass {
     }
 
     static Outcome run(const CfgEntry &ce, const PlanText &p, const RunCtx &rc, Stats &st) {
+        if (rc.prop == "C20") return run_rejections(p, st);
         Outcome out;
         Trace tr;
         std::vector<K> data = keys_from_plan<K>(p);
@@ -261,6 +299,65 @@ struct SegClass {
         return out;
     }
 };
+
+/// C04 for one level of a recursive index as built by PGMIndex::build: `pts` are the points hook H1 recorded for the
+/// level, `seg_keys` the first keys of the level's segments (without the sentinel), `m` the number of keys the level was
+/// built on, `c` the chunk count the simulator chose, key_at(i) the i-th input key of the level.
+/// The cut points of every chunk must be those of the exact greedy oracle; one appended closing segment is allowed.
+template<typename KeyAt>
+bool check_level_maximality(const std::vector<sim::PointRec> &pts, const std::vector<long double> &seg_keys, size_t m, int c, size_t eps,
+                            KeyAt key_at, long double sentinel, const std::string &ctx, Outcome &out, Stats &st) {
+    if (pts.empty()) { out.fail("no-output", ctx + ": no point recorded"); return false; }
+    std::vector<size_t> chunk_rank{0};
+    if (c > 1) {
+        size_t chunk = m / (size_t) c;
+        for (int i = 1; i < c; ++i) {
+            size_t first = (size_t) i * chunk, last = i == c - 1 ? m : first + chunk;
+            for (; first < last; ++first) if (key_at(first) != key_at(first - 1)) break;
+            if (first == last) continue;
+            chunk_rank.push_back(first);
+        }
+    }
+    std::vector<pla::Pt> P(pts.size());
+    for (size_t i = 0; i < pts.size(); ++i) P[i] = pla::Pt{(pla::i128) pts[i].x, (int64_t) pts[i].y};
+    for (size_t i = 1; i < P.size(); ++i) if (!(P[i].x > P[i - 1].x)) { out.fail("points-not-increasing", ctx + ": points not strictly increasing at " + std::to_string(i)); return false; }
+    std::vector<size_t> cb;
+    size_t pi = 0;
+    for (size_t r : chunk_rank) {
+        while (pi < P.size() && (size_t) P[pi].y < r) ++pi;
+        if (pi >= P.size() || (size_t) P[pi].y != r) { out.fail("chunk-start-missing", ctx + ": no point at chunk start rank " + std::to_string(r)); return false; }
+        cb.push_back(pi);
+    }
+    cb.push_back(P.size());
+    std::vector<long double> opt_keys;
+    for (size_t k = 0; k + 1 < cb.size(); ++k) {
+        std::vector<size_t> starts;
+        pla::optimal_count<pla::Fast>(P, cb[k], cb[k + 1], (int64_t) eps, &starts);
+        if (cb[k + 1] - cb[k] <= 600) {
+            std::vector<size_t> naive;
+            pla::optimal_count<pla::Naive>(P, cb[k], cb[k + 1], (int64_t) eps, &naive);
+            st.inc("oracle_cross_checks");
+            if (naive != starts) { out.fail("oracle-disagreement", "internal: fast and naive feasibility oracles disagree (harness defect)"); return false; }
+        }
+        for (size_t sidx : starts) opt_keys.push_back(pts[sidx].x);
+    }
+    // a segment starting at the sentinel (closing point of data ending with max-1) doubles as the level's terminator
+    if (!opt_keys.empty() && opt_keys.back() == sentinel) { opt_keys.pop_back(); st.inc("reach.segment_at_sentinel"); }
+    std::vector<long double> lib = seg_keys;
+    if (lib.size() == opt_keys.size() + 1) lib.pop_back(); // the appended closing segment (last key + 1 -> m)
+    if (lib != opt_keys) {
+        size_t j = 0;
+        while (j < lib.size() && j < opt_keys.size() && lib[j] == opt_keys[j]) ++j;
+        bool early = j < lib.size() && (j >= opt_keys.size() || lib[j] < opt_keys[j]);
+        out.fail(early ? "segment-not-maximal" : "segment-infeasible",
+                 ctx + ": segment " + std::to_string(j) + " starts at key " + (j < lib.size() ? sim::ld_to_text(lib[j]) : std::string("(none)")) + ", the exact greedy segmentation with eps=" + std::to_string(eps) +
+                 " starts it at " + (j < opt_keys.size() ? sim::ld_to_text(opt_keys[j]) : std::string("(none)")) + " (" + std::to_string(lib.size()) + " vs " + std::to_string(opt_keys.size()) + " segments)");
+        return false;
+    }
+    st.inc("levels_checked");
+    st.inc("segments_checked", lib.size());
+    return true;
+}
 
 #define EA_REGISTER_SEG(K)                                                                                                \
     static ::ea::Registrar reg_seg_##K(::ea::CfgEntry{std::string("seg:") + ::ea::key_name<K>(), "seg", 0, 0,           \
